@@ -11,6 +11,7 @@ mod rt;
 mod bkd;
 mod uid;
 mod stop;
+mod xpt;
 
 pub fn hex(b: &[u8]) -> String {
     if b.is_empty() {
@@ -48,6 +49,7 @@ fn dispatch(cmd: &str, args: &[&str]) -> String {
         "GETF" => rt::getf(args),
         "UID" => uid::uid(args),
         "STOP" => stop::stop(args),
+        "XPT" => xpt::xpt(args),
         _ => "BADCMD".to_string(),
     }
 }
